@@ -107,9 +107,9 @@ theorem blk1 {d : Nat} {s : Stmt} {ts : List Token} (h : LinN Y d (.stmt s) ts) 
 def l0 : List Token := [T cTypeImportW 0 0, T cTypeLibString 0 1 [0x5E93], T cTypeObjDotW 0 2, jia 0 3, pause 0 4, yi 0 5]
 
 def imports :=
-  LinImports.cons (Y := Y) (d := 0) _ l0 _ [] (.items (T cTypeImportW 0 0) (T cTypeLibString 0 1 [0x5E93]) (T cTypeObjDotW 0 2) _
+  LinImports.cons (Y := Y) (d := 0) _ l0 [] _ [] (.items (T cTypeImportW 0 0) (T cTypeLibString 0 1 [0x5E93]) (T cTypeObjDotW 0 2) _
     [jia 0 3, pause 0 4, yi 0 5] rfl (by decide +kernel) (by decide +kernel)
-    (.cons (jia 0 3) (pause 0 4) _ _ rfl rfl (.one (yi 0 5) rfl)) (by decide +kernel)) (by decide +kernel) .nil
+    (.cons (jia 0 3) (pause 0 4) _ _ rfl rfl (.one (yi 0 5) rfl)) (by decide +kernel)) (by decide +kernel) (.nil _) .nil
 
 -- lines 1–3
 def declBlock :=
@@ -432,7 +432,7 @@ def tokens : List Token :=
    (T cTypeCatchErrorW 45 0 :: nm 45 1 :: colon 45 2 :: ret 46 :: [jia 46 1]))
 
 /-- the hypotheses of `parse_statements_roundtrip` are satisfiable on a program that uses every statement form -/
-theorem rendered : ∃ p, LinProgram Y p tokens := ⟨_, LinProgram.importsBody 0 _ _ _ _ (by simp [l0]) imports progBody⟩
+theorem rendered : ∃ p, LinProgram Y p tokens := ⟨_, LinProgram.importsBody 0 _ _ _ _ (by simp [l0]) imports progBody (fun h => absurd h (by decide +kernel))⟩
 
 theorem inOrder : Y.InOrder tokens := by decide +kernel
 
